@@ -444,25 +444,28 @@ func c02Enumerate(tier string, emit explore.Emit) {
 	})
 	// F2
 	ds := decorators()
-	forShapes(len(ds), 3, func(sh []int) {
-		shape := append([]int(nil), sh...)
-		emit(explore.Case{Family: "error-shapes", Size: len(shape),
-			Desc: func() any { return map[string]any{"shape_innermost_first": shapeNames(ds, shape)} },
-			Run: func() explore.Result {
-				var res explore.Result
-				res.Outcome = "error-shapes"
-				res.Key = fmt.Sprint("shape", shape)
-				var sink bytes.Buffer
-				wire.ErrorCode(buffer.NewWriter(harness.Quiet, &sink), buildErr(ds, "boom é", shape))
-				ms, err := pgproto.ParseBackend(sink.Bytes())
-				if err != nil {
-					res.Fail("malformed-backend-stream", fmt.Sprintf("ErrorCode(%v): %v", shapeNames(ds, shape), err))
-				} else if k := pgproto.Kinds(ms); k != "EZ" && k != "E" {
-					res.Fail("malformed-backend-stream", fmt.Sprintf("ErrorCode(%v) produced %q", shapeNames(ds, shape), k))
-				}
-				return res
-			}})
-	})
+	for _, base := range []string{"boom é", ""} {
+		base := base
+		forShapes(len(ds), 3, func(sh []int) {
+			shape := append([]int(nil), sh...)
+			emit(explore.Case{Family: "error-shapes", Size: len(shape),
+				Desc: func() any { return map[string]any{"base_text": base, "shape_innermost_first": shapeNames(ds, shape)} },
+				Run: func() explore.Result {
+					var res explore.Result
+					res.Outcome = "error-shapes"
+					res.Key = fmt.Sprint("shape", base, shape)
+					var sink bytes.Buffer
+					wire.ErrorCode(buffer.NewWriter(harness.Quiet, &sink), buildErr(ds, base, shape))
+					ms, err := pgproto.ParseBackend(sink.Bytes())
+					if err != nil {
+						res.Fail("malformed-backend-stream", fmt.Sprintf("ErrorCode(%q, %v): %v", base, shapeNames(ds, shape), err))
+					} else if k := pgproto.Kinds(ms); k != "EZ" && k != "E" {
+						res.Fail("malformed-backend-stream", fmt.Sprintf("ErrorCode(%q, %v) produced %q", base, shapeNames(ds, shape), k))
+					}
+					return res
+				}})
+		})
+	}
 	// F3
 	for i, s := range c02Sessions(tier) {
 		s := s
